@@ -18,6 +18,7 @@ import time
 from common import *
 import e2e
 from e2e import LOOP
+import halfclose_cases as hc
 
 TICK = 1.0
 SLACK = 1.6        # scheduling slack allowed on top of period + tick
@@ -205,6 +206,10 @@ def run(tier, seed, replay=None):
         jobs = []
         p, org, sink, lp = started["small"]
         late = e2e.Server(late_reply_origin(1.5))
+        # one side finishes early, the other keeps sending for twice the period (2 s): 9 bytes, one every 0.5 s
+        hc_after = e2e.Server(hc.stream_after_eof_origin(9, 0.5))
+        hc_first = e2e.Server(hc.halfclose_first_origin)
+        jobs += [("small", lambda: hc.client_closes_first(lp["http"], hc_after, 9, 0.5)), ("small", lambda: hc.origin_closes_first(lp["http"], hc_first, 9, 0.5))]
         jobs += [("small", lambda: upload_then_halfclose(p, late, lp, P)),("small", lambda: silent(p, org, lp, hi + 2)), ("small", lambda: burst_then_silent(p, org, lp, hi + 2)),
                  ("small", lambda: trickle(p, org, lp, 1.2, 5, True, hi + 2)), ("small", lambda: trickle(p, sink, lp, 1.2, 5, False, hi + 2)),
                  ("small", lambda: trickle(p, org, lp, 1.7, 4, True, hi + 2)),
@@ -235,6 +240,11 @@ def run(tier, seed, replay=None):
         period_tcp = cfg["idle"] if cfg else 600
         period_udp = cfg["udp"] if cfg else 600
         rp = {"kind": "failing-input", "world": wname, "timeouts": cfg, "history": h}
+        if h["kind"].startswith("halfclose-"):
+            bad = hc.judge(h)
+            if bad:
+                rep.fail("C13: timeouts %s: %s - data flowed every 0.5 s, the tunnel was never idle for the period" % (cfg, bad), rp)
+            continue
         if h["kind"] == "upload-halfclose":
             if h["got"] != "done" or h["how"] != "eof":
                 rep.fail("C13: timeouts %s: a tunnel that uploaded one byte every 0.5s for %d bytes and then half-closed was cut off before the other side's answer 1.5s later (received %r, %s)" % (cfg, h["sent"], h["got"], h["how"]), rp)
@@ -264,7 +274,7 @@ def run(tier, seed, replay=None):
                 rep.fail("C13: timeouts %s: %s closed %.2fs after its last activity, before the period of %ds" % (cfg, h["kind"], t, period), rp)
     rep.coverage.update({
         "evaluations": n_eval, "distinct_nontrivial": len(lines) + len(dist),
-        "rule": "is_timeout on periods %s x last_read offsets around 0, the period boundary (+-400 ms), far past, and the future, release and debug arithmetic; real binary with timeouts {idle 2, udp 2}, absent, {0, 0}%s: silent tunnel, burst then silence, echo trickle at 1.2 s and 1.7 s, one-way trickle, UDP association, API idle_timeout" % (periods, ", {7, 3}" if tier == "thorough" else ""),
+        "rule": "is_timeout on periods %s x last_read offsets around 0, the period boundary (+-400 ms), far past, and the future, release and debug arithmetic; real binary with timeouts {idle 2, udp 2}, absent, {0, 0}%s: silent tunnel, burst then silence, echo trickle at 1.2 s and 1.7 s, one-way trickle, one side finishing early while the other streams for twice the period (both orders), UDP association, API idle_timeout" % (periods, ", {7, 3}" if tier == "thorough" else ""),
         "input_distribution": dict(dist), "model_impl_disagreements": n_diff,
     })
     rep.assumptions = ["wall-clock thresholds: period - 0.05 s .. period + 1 s tick + %.1f s slack" % SLACK]
